@@ -250,19 +250,23 @@ def handleOffsetFetch (c : Cluster) (node : Int) (version : Int) (group : Bytes)
     (c, (t, rs))
   (c, .offsetFetch ts)
 
-/-- what the broker at `host` does with one request payload; `none` = no reply (produce with acks 0) -/
-def handle (c : Cluster) (host : Bytes) (req : Request) : Cluster × Option Bytes :=
+/-- what the broker at `host` answers to one request, as structured content; `none` = no reply (produce with acks 0) -/
+def handleBody (c : Cluster) (host : Bytes) (req : Request) : Cluster × Option RespBody :=
   let node := (c.nodeOfHost host).getD (-1)
-  let reply (c : Cluster) (b : RespBody) := (c, some (encResponse req.header.corr b))
   match req.body with
-  | .metadata names => reply c (handleMetadata c names)
-  | .fetch _ _ _ ts => let (c, b) := handleFetch c node ts; reply c b
-  | .offsets _ ts => let (c, b) := handleOffsets c node (req.header.apiVersion = 1) ts; reply c b
+  | .metadata names => (c, some (handleMetadata c names))
+  | .fetch _ _ _ ts => let (c, b) := handleFetch c node ts; (c, some b)
+  | .offsets _ ts => let (c, b) := handleOffsets c node (req.header.apiVersion = 1) ts; (c, some b)
   | .produce acks _ ts =>
     let (c, b) := handleProduce c node ts
-    if acks = 0 then (c, none) else reply c b
-  | .groupCoordinator _ => let (c, b) := handleCoordinator c; reply c b
-  | .offsetCommit g _ _ _ ts => let (c, b) := handleCommit c node g ts; reply c b
-  | .offsetFetch g ts => let (c, b) := handleOffsetFetch c node req.header.apiVersion g ts; reply c b
+    if acks = 0 then (c, none) else (c, some b)
+  | .groupCoordinator _ => let (c, b) := handleCoordinator c; (c, some b)
+  | .offsetCommit g _ _ _ ts => let (c, b) := handleCommit c node g ts; (c, some b)
+  | .offsetFetch g ts => let (c, b) := handleOffsetFetch c node req.header.apiVersion g ts; (c, some b)
+
+/-- the reply payload on the wire -/
+def handle (c : Cluster) (host : Bytes) (req : Request) : Cluster × Option Bytes :=
+  let (c', b) := handleBody c host req
+  (c', b.map (encResponse req.header.corr))
 
 end Kafka.Spec
